@@ -215,3 +215,44 @@ impl ArrayValue for u8 {
         }
     }
 }
+
+// ---- interpreter stand-in for the env-taking array methods: only the scalar fill and error construction ----
+pub struct FillValue<T> {
+    pub value: T,
+}
+#[derive(Debug)]
+pub struct UiuaError;
+pub type UiuaResult<T = ()> = Result<T, UiuaError>;
+pub struct Uiua {
+    /// the numeric scalar fill in scope, if any
+    pub fill: Option<f64>,
+}
+#[derive(Clone, Copy)]
+pub struct Ctx {
+    fill: Option<f64>,
+}
+impl Uiua {
+    pub fn ctx(&self) -> Ctx {
+        Ctx { fill: self.fill }
+    }
+    pub fn error(&self, _m: impl Sized) -> UiuaError {
+        UiuaError
+    }
+}
+pub trait ScalarFill: Sized {
+    fn from_f64(x: f64) -> Self;
+}
+impl ScalarFill for f64 {
+    fn from_f64(x: f64) -> f64 {
+        x
+    }
+}
+impl Ctx {
+    /// src/context.rs:117 (the fill stack itself is not modelled: a fill is present or absent)
+    pub fn scalar_fill<T: ScalarFill>(&self) -> Result<FillValue<T>, &'static str> {
+        match self.fill {
+            Some(x) => Ok(FillValue { value: T::from_f64(x) }),
+            None => Err(""),
+        }
+    }
+}
